@@ -198,6 +198,45 @@ def run(res, tier):
                            'alive in the buffer and are exposed again as "default" items by EnsureSize(n, true)' % (f.q, lhs.text(40)))
     if n_ra < 1:
         raise AnalysisBroken('RING-AWARE: no reset loop found')
+    # reads: a loop that runs over the ITEM COUNT reads the items through the logical accessor, never through this->_queue[i] / this->_smallQueue[i]
+    n_rr = 0
+    for f in sorted(funcs, key=lambda f: f.line):
+        for l_ in f.walk():
+            if l_['k'] != 'ForStmt' or l_.role('cond') is None:
+                continue
+            cond = A.strip_casts(l_.role('cond'))
+            if cond['k'] != 'BinaryOperator' or cond.get('op') not in ('<', '<='):
+                continue
+            iv = A.strip_casts(cond['ch'][0])
+            bnd = A.strip_casts(cond['ch'][1])
+            if iv['k'] != 'DeclRefExpr' or 'd' not in iv:
+                continue
+
+            def count_like(e, depth=0):
+                for x in e.walk():
+                    if (x.is_call() and (x.get('q') or '').endswith('::GetNumItems') and (x.receiver() is None or A.strip_casts(x.receiver())['k'] == 'CXXThisExpr')) or \
+                            (x['k'] == 'MemberExpr' and x.get('n') == '_itemCount' and A.is_this_member(x)):
+                        return True
+                    if x['k'] == 'DeclRefExpr' and 'd' in x and depth < 1:
+                        for v in f.walk():
+                            if v['k'] == 'VarDecl' and v.get('d') == x['d'] and v['ch'] and count_like(v['ch'][0], depth + 1):
+                                return True
+                return False
+            if not count_like(bnd):
+                continue
+            n_rr += 1
+            bad = None
+            for x in l_.walk():
+                if x['k'] == 'ArraySubscriptExpr' and A.strip_casts(x['ch'][1]).get('d') == iv['d']:
+                    b = A.strip_casts(x['ch'][0])
+                    if b['k'] == 'MemberExpr' and b.get('n') in ('_queue', '_smallQueue') and A.is_this_member(b):
+                        bad = x
+            res.ob('RING-AWARE', f.where(l_), '%s: loop over the item count (line %s) does not index the raw storage' % (f.q.split('::')[-1], l_.get('l')), bad is None, function=f.q,
+                   key='RING-AWARE|%s|count-loop:%s' % (f.q.split('<')[0] + '::' + f.q.split('::')[-1], l_.get('l')),
+                   message='%s runs i over the item count but accesses `%s`: slot i of the storage is item i only when the ring head sits at slot 0; after AddHead()/RemoveHead() the items are '
+                           'rotated (or an already removed slot is taken and a live item lost)' % (f.q, bad.text(30) if bad is not None else ''))
+    if n_rr < 3:
+        raise AnalysisBroken('RING-AWARE: only %d loops over the item count found' % n_rr)
     res.rule('INDEX-WRAP', 'every additive update of _headIndex/_tailIndex is reduced modulo _queueSize: `%% _queueSize`, InternalizeIndex/NextIndex/PrevIndex, or `if (idx >= _queueSize) idx -= _queueSize` '
                            '(with >=: an index equal to _queueSize is already out of range)', floor=1)
     n_iw = 0
